@@ -777,6 +777,37 @@ func genC20(g *Gen, tier string, emit func(op string, args ...string)) {
 		}
 	}
 
+	// ---- names that differ only in letter case are DIFFERENT names (vendors and attributes): every pair of
+	// single-vendor dictionaries over {Cisco, cisco, CISCO} x {9, 5771}, and top-level attributes User-Name /
+	// user-name / USER-NAME under distinct and equal numbers
+	{
+		var cv []gVendor
+		for i, nm := range []string{"Cisco", "cisco", "CISCO"} {
+			for j, num := range []int{9, 5771} {
+				cv = append(cv, gVendor{name: nm, num: num, to: "n", lo: "n",
+					attrs: []gAttr{{name: []string{"x", "X"}[(i+j)%2], oid: []int{1 + (i+j)%2}, typ: 1}}})
+			}
+		}
+		for _, v1 := range cv {
+			for _, v2 := range cv {
+				emit("merge", gDict{vendors: []gVendor{v1}}.String(), gDict{vendors: []gVendor{v2}}.String(), "2")
+			}
+		}
+		var ca []gAttr
+		for _, nm := range []string{"User-Name", "user-name", "USER-NAME"} {
+			for _, o := range []int{1, 2} {
+				ca = append(ca, gAttr{name: nm, oid: []int{o}, typ: 1})
+			}
+		}
+		for _, x := range ca {
+			for _, y := range ca {
+				emit("merge", gDict{attrs: []gAttr{x}}.String(), gDict{attrs: []gAttr{y}}.String(), "2")
+				emit("merge", gDict{vendors: []gVendor{{name: "V", num: 1, to: "n", lo: "n", attrs: []gAttr{x}}}}.String(),
+					gDict{vendors: []gVendor{{name: "V", num: 1, to: "n", lo: "n", attrs: []gAttr{y}}}}.String(), "2")
+			}
+		}
+	}
+
 	// ---- exhaustive small scope, part 3: <= 2 attributes x <= 2 vendors, well-formed vendor lists only,
 	// one top-level attribute list per side combined with every vendor pair (quick: a slice of it)
 	if thorough {
